@@ -426,6 +426,48 @@ func concBody(x *Exec, raw json.RawMessage) {
 			}
 		}
 		r.refreshChans = nil
+		for _, rc := range r.bulkRefreshChans {
+			select {
+			case got := <-rc.ch:
+				for _, g := range got {
+					x.Count("refresh-results")
+					if why := refreshResultWrong(r, g.Key, g.Value, g.Err); why != "" {
+						x.Fail("refresh-result-wrong", "BulkRefresh@"+p.Label, "%q delivered {key %d, value %d, err %v}: %s", rc.op, g.Key, g.Value, g.Err, why)
+					}
+				}
+			default:
+				x.Fail("refresh-channel", "BulkRefresh@"+p.Label, "%q delivered no result although every goroutine finished", rc.op)
+			}
+		}
+		r.bulkRefreshChans = nil
+		// a reload that succeeded and was not overtaken by a write is what the cache holds afterwards
+		writers := false
+		for _, rs := range recs {
+			for _, rc := range rs {
+				switch opFields(rc.op)[0] {
+				case "set", "sia", "cw", "ci", "cia", "cipw", "cipi", "inv", "invall":
+					writers = true
+				}
+			}
+		}
+		if !writers {
+			produced := map[int][]int{}
+			for _, lc := range r.Loads {
+				if lc.Err != "" {
+					continue
+				}
+				for k, v := range lc.Out {
+					if containsKey(lc.Keys, k) {
+						produced[k] = append(produced[k], v)
+					}
+				}
+			}
+			for k, vs := range produced {
+				if cv, ok := contents[k]; ok && !containsInt(vs, cv) {
+					x.Fail("reload-not-installed", "Refresh@"+p.Label, "loads of key %d succeeded with %v and nothing else wrote the key, yet the cache holds %d", k, vs, cv)
+				}
+			}
+		}
 	}
 	if has(p.Oracles, "iter") {
 		checkIteration(x, r, p, setupRecs, recs)
